@@ -77,8 +77,8 @@ func init() {
 		Prop:  "C03",
 		Level: "exploration",
 		Rule: "a reference model of the writer configuration (normal list, error list, per-level lists, package defaults for a logger never given writers) is advanced with each operation sequence; the sequence is applied to a fresh root and to a child of a configured parent, as methods and (when every operation has one) as New(...) options; " +
-			"then - for the method form after EVERY operation, so that records emitted between reconfigurations are part of the history - one probe record with a unique id is issued at each of 15 severities (built-ins, custom levels with the error device, without it, gated like Error but without the error device, unregistered) and the per-writer Write counts (recording writers of 6 shapes, fds 1/2 redirected onto files) must equal the selected list; LevelSettable destinations must have been told the severity before each Write. " +
-			"exh: ALL sequences up to the length bound over a reduced alphabet (40 operations over 4 writers incl. a real *os.File); rand: random sequences of 3-10 operations over the full alphabet (7 writers of 6 shapes, 8 levels). A failing sequence is shrunk by dropping operations. non-trivial = every judged (logger kind, form, sequence); distinct = by that triple",
+			"then - for the method form after EVERY operation, so that records emitted between reconfigurations are part of the history - one probe record with a unique id is issued at each of 20 severities (built-ins; custom levels with the error device - also with values 64, 1000 and -5 and one that is gated like Info -, without it, gated like Error but without the error device, unregistered) through LogAttrs, 5 more through verbs and Print/Println and 4 blank-line forms and the per-writer Write counts (recording writers of 6 shapes, fds 1/2 redirected onto files) must equal the selected list; LevelSettable destinations must have been told the severity before each Write. " +
+			"exh: ALL sequences up to the length bound over a reduced alphabet (40 operations over 4 writers incl. a real *os.File); rand: random sequences of 3-10 operations over the full alphabet (8 writers of 7 shapes, 8 levels, plus children derived with WithWriter / WithErrorWriter and reconfigured, which must leave the receiver alone). A failing sequence is shrunk by dropping operations. non-trivial = every judged (logger kind, form, sequence); distinct = by that triple",
 		Assumptions: []string{"a removal that meets several copies of the writer may leave k-1 or 0 copies", "the package-level default writer itself is not reconfigured"},
 		Floors:      map[string]int64{"probes": 5000, "write_events": 3000, "fallback_bytes": 1000, "levelsettable_writes": 100},
 		Exhaustive:  func(string) bool { return true },
